@@ -7,10 +7,12 @@ import (
 	hnet "github.com/cloudwego/hertz/pkg/network"
 	"net"
 	"os"
+	"os/signal"
 	"path/filepath"
 	"strings"
 	"sync"
 	"sync/atomic"
+	"syscall"
 	"testing"
 	"time"
 
@@ -604,3 +606,115 @@ func scenarios(t *testing.T, transport, unit string) {
 
 func TestC18Standard(t *testing.T) { scenarios(t, "standard", "standard-transport") }
 func TestC18Netpoll(t *testing.T)  { scenarios(t, "netpoll", "netpoll-transport") }
+
+// TestC18Signals: the production path. A server started with Spin() is told to stop by a signal
+// (SIGTERM from an orchestrator, SIGHUP, SIGINT): all three mean graceful shutdown. A request that is
+// in its handler when the signal arrives gets its complete response, the shutdown hooks run, and Spin
+// does not return before the handler has returned (the process would exit and cut the response off).
+func TestC18Signals(t *testing.T) {
+	rec := ev.New("spin-signals")
+	dir, _ := os.Getwd()
+	sigs := []syscall.Signal{syscall.SIGTERM, syscall.SIGHUP, syscall.SIGINT}
+	for si, sig := range sigs {
+		for ti, transport := range []string{"standard", "netpoll"} {
+			if sig == syscall.SIGHUP && signal.Ignored(syscall.SIGHUP) {
+				continue // hertz leaves an ignored SIGHUP alone
+			}
+			rec.Case(true, ev.HashString(sig.String(), transport), "signal-"+sig.String(), "transport-"+transport)
+			guard := make(chan os.Signal, 8)
+			signal.Notify(guard, sig) // whatever happens, the signal never kills the test process
+			msg := func() string {
+				atomic.StoreInt64(&maxLate, 0)
+				stopBeat := make(chan struct{})
+				defer close(stopBeat)
+				go func() {
+					for {
+						select {
+						case <-stopBeat:
+							return
+						default:
+						}
+						t0 := time.Now()
+						time.Sleep(time.Millisecond)
+						if late := int64(time.Since(t0) - time.Millisecond); late > atomic.LoadInt64(&maxLate) {
+							atomic.StoreInt64(&maxLate, late)
+						}
+					}
+				}()
+				sock := filepath.Join(dir, fmt.Sprintf("sig%d-%d-%d.sock", os.Getpid(), si, ti))
+				os.Remove(sock)
+				defer os.Remove(sock)
+				opts := []config.Option{server.WithNetwork("unix"), server.WithHostPorts(sock), server.WithExitWaitTime(1500 * time.Millisecond)}
+				if transport == "netpoll" {
+					opts = append(opts, server.WithTransport(netpoll.NewTransporter))
+				} else {
+					opts = append(opts, server.WithTransport(standard.NewTransporter))
+				}
+				h := server.New(opts...)
+				entered, release := make(chan struct{}, 1), make(chan struct{})
+				var handlerDone, spinReturned, hookRan int64
+				h.GET("/park", func(c context.Context, ctx *app.RequestContext) {
+					entered <- struct{}{}
+					<-release
+					ctx.SetBodyString("parked-response")
+					atomic.StoreInt64(&handlerDone, time.Now().UnixNano())
+				})
+				h.OnShutdown = append(h.OnShutdown, func(ctx context.Context) { atomic.StoreInt64(&hookRan, 1) })
+				spinDone := make(chan struct{})
+				go func() {
+					h.Spin()
+					atomic.StoreInt64(&spinReturned, time.Now().UnixNano())
+					close(spinDone)
+				}()
+				var c net.Conn
+				var err error
+				for i := 0; i < 600; i++ {
+					if c, err = net.Dial("unix", sock); err == nil {
+						break
+					}
+					time.Sleep(5 * time.Millisecond)
+				}
+				if err != nil {
+					return "harness: server did not start listening"
+				}
+				defer c.Close()
+				time.Sleep(30 * time.Millisecond) // let Spin install its signal handler
+				fmt.Fprintf(c, "GET /park HTTP/1.1\r\nHost: h\r\n\r\n")
+				select {
+				case <-entered:
+				case <-time.After(5 * time.Second):
+					return "harness: handler not entered within 5 s"
+				}
+				if err := syscall.Kill(os.Getpid(), sig); err != nil {
+					return "harness: cannot signal myself: " + err.Error()
+				}
+				go func() { time.Sleep(120 * time.Millisecond); close(release) }()
+				pr, raw, rerr := readResponse(c, 6*time.Second)
+				select {
+				case <-spinDone:
+				case <-time.After(1500*time.Millisecond + 3*time.Second):
+					return fmt.Sprintf("Spin did not return within the exit wait time + 3 s after %s", sig)
+				}
+				if rerr != nil || pr == nil || pr.Status != 200 || string(pr.Body) != "parked-response" {
+					return fmt.Sprintf("after %s the request that was in its handler got no complete response: err=%v, %d bytes %.80q", sig, rerr, len(raw), raw)
+				}
+				if d := atomic.LoadInt64(&handlerDone); d == 0 || atomic.LoadInt64(&spinReturned) < d {
+					return fmt.Sprintf("after %s Spin returned before the in-flight handler had returned (a real process would exit and cut the response off)", sig)
+				}
+				if atomic.LoadInt64(&hookRan) == 0 {
+					return fmt.Sprintf("after %s the shutdown hooks did not run", sig)
+				}
+				return ""
+			}()
+			signal.Stop(guard)
+			if strings.HasPrefix(msg, "harness:") || (msg != "" && beatLate() > overloaded) {
+				rec.Class("verdict-dropped-harness-or-overload", 1)
+				continue
+			}
+			if msg != "" {
+				ev.Fail(prop, "spin-signals", map[string]string{"signal": sig.String(), "transport": transport}, msg)
+				t.Errorf("%s transport: %s", transport, msg)
+			}
+		}
+	}
+}
